@@ -55,11 +55,14 @@
               manufacture UnexpectedEof -- was found by it and is repaired));
      LAYER 3  (the curve: see the section "LAYER 3" at the end of this file.
               PROVED there: calculate_path / calculate_length never panic,
-              for every libm, and hence no decode ever panics.  OPEN: that
-              the Bézier subdivision fuel suffices in IEEE arithmetic for
-              the coordinates a file can contain (T01g, partial by design;
-              proved for reals and for the flat classes; REFUTED for
-              unbounded coordinates, finding D25 -- public API only));
+              for every libm, and hence no decode ever panics; the Bézier
+              subdivision fuel suffices in IEEE arithmetic for n control
+              points within +-2^E when n * 2^E <= 2^22
+              ([C01_T01g_ieee_bounded]).  OPEN: the same for the remaining
+              segments a file can contain (more control points, far from
+              the origin) (T01g, partial by design; proved for reals and
+              for the flat classes; REFUTED for unbounded coordinates,
+              finding D25 -- public API only));
      LAYER 4  (re-encoding: see the section "LAYER 4" at the end of this file.
               PROVED there: the encoder can fail only inside the slider-event
               calls; it never runs out of fuel on a decoded map (every tick
@@ -605,13 +608,86 @@ Example C01_T01g_witness_dump :
   map (fun p => Curve.pc_type p) BezierDiverges.slider_inf = [Some Curve.BSpline; None; None].
 Proof. vm_compute. split; reflexivity. Qed.
 
-(* FULL STATEMENT, NOT PROVED (T01g for the IEEE instance):
-     forall path points, points <> [] -> (coordinates finite, |x| <= 2^17) ->
+(* ... and FALSE for finite coordinates too, from 2^23 on (neighbouring binary32
+   numbers are 1 apart there): the left child of the segment
+   (2^23, 2^23 + 1) (2^23, 2^23) (2^23, 2^23) is the segment itself (the midpoint
+   2^23 + 1/2 is a tie, rounded to even), its second difference (0, 1) is not
+   flat; the loop never returns, `to_flatten` grows by one array per iteration.
+   Not reachable from decoding; public constructors only (D25, extended). *)
+From RM Require Proofs.BezierIEEEFinite.
+
+Theorem C01_T01g_ieee_refuted_finite :
+  (forall fuel path,
+     Curve.approximate_bezier_L1 fuel path BezierIEEEFinite.seg_fin tt = OutOfFuel) /\
+  (forall lm fuel mode e,
+     Curve.curve_L1 lm fuel mode BezierIEEEFinite.slider_fin e = OutOfFuel) /\
+  (forall n rest path,
+     BezierTermination.run Curve.bspline_step1 n (BezierIEEEFinite.seg_fin :: rest, path)
+       = inl (BezierIEEEFinite.seg_fin :: repeat BezierIEEEFinite.seg_fin_right n ++ rest, path)).
+Proof.
+  split; [exact BezierIEEEFinite.bezier_fin_never_returns|].
+  split; [exact BezierIEEEFinite.curve_fin_never_returns|].
+  exact BezierIEEEFinite.run_seg_fin.
+Qed.
+Print Assumptions C01_T01g_ieee_refuted_finite.
+
+(* ... and already from 2^22 on (spacing 1/2): the right child of
+   (2^22, 2^22 + 1) (2^22 + 1/2, 2^22 + 1/2) (2^22 + 1/2, 2^22 + 1/2) is the
+   segment itself, its second difference (-1/2, 1/2) is not flat.  This is the
+   smallest magnitude at which the search of probes/T01g_search found a
+   segment on which the loop does not return. *)
+Theorem C01_T01g_ieee_refuted_finite_2p22 :
+  forall fuel path,
+  Curve.approximate_bezier_L1 fuel path BezierIEEEFinite.seg22 tt = OutOfFuel.
+Proof. exact BezierIEEEFinite.bezier_22_never_returns. Qed.
+Print Assumptions C01_T01g_ieee_refuted_finite_2p22.
+
+Example C01_T01g_finite_witness_2p22_dump :
+  map Curve.dump_pos BezierIEEEFinite.seg22
+    = [[1249902592; 1249902594]; [1249902593; 1249902593]; [1249902593; 1249902593]] /\
+  forallb (fun p => is_finite_SF (B2SF (Curve.px p)) && is_finite_SF (B2SF (Curve.py p)))
+    BezierIEEEFinite.seg22 = true.
+Proof. exact (conj BezierIEEEFinite.seg22_dump BezierIEEEFinite.seg22_finite). Qed.
+
+(* the witness, on dumps: 2^23 = 0x4B000000, 2^23 + 1 = 0x4B000001; all finite *)
+Example C01_T01g_finite_witness_dump :
+  map Curve.dump_pos BezierIEEEFinite.seg_fin
+    = [[1258291200; 1258291201]; [1258291200; 1258291200]; [1258291200; 1258291200]] /\
+  forallb (fun p => is_finite_SF (B2SF (Curve.px p)) && is_finite_SF (B2SF (Curve.py p)))
+    BezierIEEEFinite.seg_fin = true.
+Proof. exact (conj BezierIEEEFinite.seg_fin_dump BezierIEEEFinite.seg_fin_finite). Qed.
+
+(* FULL STATEMENT, NOT PROVED (T01g for the IEEE instance, every segment a
+   file can contain):
+     forall path points, points <> [] -> (coordinates finite, |x| <= 2^18:
+     control points are stored relative to the slider position, both within
+     +-131072) ->
      exists r, Curve.approximate_bezier_L1 Curve.bezier_fuel path points tt = Done r.
-   Missing: that binary32 rounding in avg2 and in the flatness test cannot
-   stall the 1/4 contraction of the second differences (an ulp at 2^17 is
-   2^-6, far below the tolerance, but that inequality is not mechanised).
-   Proved for the IEEE instance, for every fuel >= 2: *)
+   PROVED ([C01_T01g_ieee_bounded], below): the statement for every segment of
+   n control points with finite coordinates |x| <= 2^E and n * 2^E <= 2^22
+   -- e.g. <= 8192 control points within +-512, <= 1024 within +-4096, <= 32
+   within +-131072, <= 16 anywhere in the parser's range (+-262144 relative
+   to the slider).  The binary32 rounding of `(a + b) / 2.0` (at most u =
+   2^(E-25) + 2^-150 per midpoint) and of the flatness test `(prev - curr * 2.0
+   + next).length_squared() > 0.25` (false whenever both real second
+   differences are <= 7/32 and E <= 20) cannot stall the 1/4 contraction
+   there: the second differences along a row of the computed triangle grow
+   by at most 4u per level, those of a child are a quarter of a row's plus at
+   most 3u, so D' <= D/4 + n u, fixed point 4nu/3 <= 3/16.
+   ([C01_T01g_ieee_bounded_via_exact_child] is the first, weaker form, (n - 1)
+   * 2^E <= 2^19, obtained by comparing with the exact child.)
+   REMAINS OPEN: segments with n * 2^E > 2^22 inside the parser's range (many
+   control points far from the origin).  The worst-case bound n u is linear
+   in n and exceeds the tolerance there; the true growth is logarithmic in n
+   (the 4u increments have alternating signs that the next averaging step
+   cancels), not mechanised; no such segment that fails to return was found
+   (probes/T01g_search: 20952 segments of 3..2000 control points around
+   +-131072 / +-262144, every one returned).
+   Some bound on finite coordinates is needed: from 2^22 on (spacing >= 1/2)
+   there are FINITE segments on which the loop never returns
+   ([C01_T01g_ieee_refuted_finite], [C01_T01g_ieee_refuted_finite_2p22],
+   finding D25 extended; public API only).
+   Also proved for the IEEE instance, for every fuel >= 2: *)
 Theorem C01_T01g_ieee_partial :
   forall fuel path, (2 <= Pos.to_nat fuel)%nat ->
   (forall a, Curve.approximate_bezier_L1 fuel path [a] tt
@@ -642,6 +718,107 @@ Theorem C01_T01g_ieee_equal_points_partial :
   = Done (path ++ Curve.bezier_approx_pts (repeat p (S n)) ++ [p], tt).
 Proof. exact BezierEqualPoints.bezier_equal_points_partial. Qed.
 Print Assumptions C01_T01g_ieee_equal_points_partial.
+
+(* T01g for the IEEE instance, bounded control points (binary32, through
+   Flocq's correctness theorems for +, -, *, /, <).  [point_ok E p]: both
+   coordinates of p are finite and of magnitude <= 2^E. *)
+From RM Require Proofs.BezierIEEE Proofs.BezierIEEETight.
+
+Example C01_T01g_point_ok_means :
+  forall E p,
+  BezierIEEE.point_ok E p <->
+  (is_finite (Curve.px p) = true /\
+   (Rabs (B2R (Curve.px p)) <= Flocq.Core.Raux.bpow Flocq.Core.Zaux.radix2 E)%R) /\
+  (is_finite (Curve.py p) = true /\
+   (Rabs (B2R (Curve.py p)) <= Flocq.Core.Raux.bpow Flocq.Core.Zaux.radix2 E)%R).
+Proof. intros E p. split; intros H; exact H. Qed.
+
+Theorem C01_T01g_ieee_bounded :
+  forall (E : Z) path points,
+  0 <= E -> Z.of_nat (length points) * 2 ^ E <= 2 ^ 22 ->
+  points <> [] -> Forall (BezierIEEE.point_ok E) points ->
+  exists path', Curve.approximate_bezier_L1 Curve.bezier_fuel path points tt = Done (path', tt).
+Proof. exact BezierIEEETight.T01g_ieee_bounded_tight. Qed.
+Print Assumptions C01_T01g_ieee_bounded.
+
+(* ... with the depth: the subdivision tree below such a segment is flat at depth 19 *)
+Theorem C01_T01g_ieee_bounded_depth :
+  forall (E : Z) points,
+  0 <= E -> Z.of_nat (length points) * 2 ^ E <= 2 ^ 22 ->
+  points <> [] -> Forall (BezierIEEE.point_ok E) points ->
+  BezierTermination.within32 19 points.
+Proof. exact BezierIEEETight.within32_bounded_tight. Qed.
+Print Assumptions C01_T01g_ieee_bounded_depth.
+
+(* the first form (through the exact child: each child control point is within
+   (n-1)u of the exact child's, D' <= D/4 + 4(n-1)u); it also covers a single
+   control point of any finite magnitude *)
+Theorem C01_T01g_ieee_bounded_via_exact_child :
+  forall (E : Z) path points,
+  0 <= E -> Z.of_nat (length points - 1) * 2 ^ E <= 2 ^ 19 ->
+  points <> [] -> Forall (BezierIEEE.point_ok E) points ->
+  exists path', Curve.approximate_bezier_L1 Curve.bezier_fuel path points tt = Done (path', tt).
+Proof. exact BezierIEEE.T01g_ieee_bounded. Qed.
+Print Assumptions C01_T01g_ieee_bounded_via_exact_child.
+
+(* the pieces: one computed midpoint; the children of a covered segment whose
+   real second differences are bounded by D ([Inv E D]: covered coordinates,
+   second differences of either coordinate list at most D); the flatness test *)
+Theorem C01_T01g_ieee_midpoint :
+  forall E a b, 0 <= E <= 126 ->
+  BezierIEEE.coord_ok E a -> BezierIEEE.coord_ok E b ->
+  BezierIEEE.coord_ok E (BezierIEEEScalar.avg1 a b) /\
+  (Rabs (B2R (BezierIEEEScalar.avg1 a b) - (B2R a + B2R b) / 2) <= BezierIEEE.uE E)%R.
+Proof. exact BezierIEEE.midpoint_ok. Qed.
+Print Assumptions C01_T01g_ieee_midpoint.
+
+Theorem C01_T01g_ieee_contraction :
+  forall E D pts, 0 <= E <= 126 -> (0 <= D)%R -> BezierIEEE.Inv E D pts ->
+  let D' := (D / 4 + INR (length pts) * BezierIEEE.uE E)%R in
+  BezierIEEE.Inv E D' (fst (BezierTermination.sub32 pts)) /\
+  BezierIEEE.Inv E D' (snd (BezierTermination.sub32 pts)).
+Proof. exact BezierIEEETight.contraction_tight_ok. Qed.
+Print Assumptions C01_T01g_ieee_contraction.
+
+Theorem C01_T01g_ieee_flat_test :
+  forall E D pts, 0 <= E <= 100 -> BezierIEEE.Inv E D pts ->
+  (D + Flocq.Core.Raux.bpow Flocq.Core.Zaux.radix2 (E - 23) <= 11 / 32)%R ->
+  Curve.flat_enough pts = true.
+Proof. exact BezierIEEETight.flat_test_gen_ok. Qed.
+Print Assumptions C01_T01g_ieee_flat_test.
+
+(* not vacuous: what the line
+   `0,0,0,2,0,B|131072:-131072|-131072:131072|131072:131072,1,100` decodes to --
+   four control points within +-2^17 (4 * 2^17 <= 2^22), far from flat *)
+Example C01_T01g_ieee_bounded_example :
+  map Curve.dump_pos BezierIEEE.ex_seg
+    = [[0; 0]; [1207959552; 3355443200]; [3355443200; 1207959552]; [1207959552; 1207959552]] /\
+  Curve.flat_enough BezierIEEE.ex_seg = false /\
+  Forall (BezierIEEE.point_ok 17) BezierIEEE.ex_seg /\
+  Z.of_nat (length BezierIEEE.ex_seg) * 2 ^ 17 <= 2 ^ 22 /\
+  (forall path, exists path',
+     Curve.approximate_bezier_L1 Curve.bezier_fuel path BezierIEEE.ex_seg tt = Done (path', tt)).
+Proof.
+  split; [exact BezierIEEE.ex_seg_dump|]. split; [exact BezierIEEE.ex_seg_not_flat|].
+  split; [exact BezierIEEE.ex_seg_ok|]. split; [vm_compute; discriminate|].
+  exact BezierIEEETight.ex_seg_terminates_tight.
+Qed.
+
+(* hence Curve::new / BorrowedCurve::new (pure level) return a value for every
+   slider of n control points within +-2^E with n * 2^E <= 2^22, any segment
+   kinds, mode and requested length, for every libm whose atan2 has its values
+   in [-PI, PI]: calculate_path hands contiguous slices of the control points
+   to the Bezier routine, and a slice of covered points is covered *)
+From RM Require Proofs.BezierIEEECurve.
+
+Theorem C01_T01g_curve_bounded :
+  forall lm mode pts e (E : Z),
+  ThetaLoop.atan2_in_range lm -> 0 <= E ->
+  Z.of_nat (length pts) * 2 ^ E <= 2 ^ 22 ->
+  Forall (fun p => BezierIEEE.point_ok E (Curve.pc_pos p)) pts ->
+  exists c, Curve.curve_L1 lm Curve.bezier_fuel mode pts e = Done c.
+Proof. exact BezierIEEECurve.curve_L1_bounded. Qed.
+Print Assumptions C01_T01g_curve_bounded.
 
 (* ------------------------------------------------------------------ *)
 (* LAYER 4: re-encoding                                                 *)
